@@ -336,12 +336,23 @@ def trusted_scan(text):
     }
 
 
+UNIT_UNDECIDED = []
+
+
 def run_units(pid, tier, scratch, want_canary):
     """-> dict unit name -> result."""
     results = {}
     for uname in propdefs.PROPS[pid].get('units', []):
         unit = getattr(units, uname + '_unit')()
-        g, path, gen_s = build_unit(unit, scratch)
+        try:
+            g, path, gen_s = build_unit(unit, scratch)
+        except Undecided as e:
+            # a property that is also decided by another engine (Kani) must still run that engine: what it
+            # finds on the real code stands even when the contracts of this unit no longer apply to the text
+            if propdefs.PROPS[pid].get('extra'):
+                UNIT_UNDECIDED.append('unit %s: %s' % (uname, e))
+                continue
+            raise
         vr = runverus.run(path, cache_dir=CACHE, cache_key_extra=runverus.verus_version())
         if vr['timed_out']:
             raise Undecided('verus timed out on unit %s' % uname)
@@ -411,7 +422,7 @@ def run_check(pid, tier, seed, scratch, t0):
     known = load_known()
     my_known = [k for k in known['finding'] if k['property'] == pid]
     all_fail = []
-    undecided = []
+    undecided = list(UNIT_UNDECIDED)
     obligations = 0
     per_fn_all = {}
     assumed_all = []
@@ -572,12 +583,17 @@ def run_check(pid, tier, seed, scratch, t0):
         ev['coverage']['exhaustive'] = False
     os.makedirs(os.path.join(ROOT, 'evidence'), exist_ok=True)
 
+    kani_violations = [v for v in violations if v.get('kind') == 'kani']
     if undecided:
         ev['coverage']['undecided'] = undecided[:20]
         json.dump(ev, open(os.path.join(ROOT, 'evidence', pid + '.json'), 'w'), indent=1)
         for u in undecided[:10]:
             print('UNDECIDED property=%s reason=%s' % (pid, u.replace('\n', ' ')[:500]))
-        return 2
+        # a failed Kani harness is a failure of the real code within its bound: it stands even when a Verus unit
+        # of the same property could not be decided (e.g. its contracts no longer apply to the changed text)
+        if not kani_violations:
+            return 2
+        violations = kani_violations
 
     json.dump(ev, open(os.path.join(ROOT, 'evidence', pid + '.json'), 'w'), indent=1)
     seen = set()
